@@ -8,30 +8,22 @@
 EXTENDS BigInt
 CONSTANTS MaxFrac, CoeffBits
 T == INSTANCE FpText WITH MaxFrac <- MaxFrac, CoeffBits <- CoeffBits
+S == INSTANCE FpDec WITH ZAdd <- BAdd, ZSub <- BSub, ZMul <- BMul, ZCmp <- BCmp, ZFloorDivMod <- BFloorDivMod,
+       ZLit <- BLit, ZNeg <- BNeg, ZAbs <- BAbs, ZSign <- BSign, ZIsEven <- BIsEven, ZMod5Is0 <- BMod5Is0,
+       ZPow10 <- BPow10, ZPow2 <- BPow2, ZDigits <- BDigits, MaxFrac <- MaxFrac, CoeffBits <- CoeffBits
+Num(j) == Mk(j.s, j.m)
 
-(* F7 (C06, C18): fpdec-core/src/parser.rs `if n_exp_digits > 2` - an exponent  *)
-(* written with more than two digits ("1e001", "2E+000") is rejected although   *)
-(* the literal is in the grammar and its value is representable.                *)
-ExpDigits(bs) == LET sh == T!Shape(bs) IN IF sh.hasE THEN sh.i5 - sh.i4 ELSE 0
-F7(e) == /\ e.ev = "parse" /\ ~(e.form = "from_str_radix" /\ e.radix # 10)
-         /\ T!WellFormed(e.bs) /\ ExpDigits(e.bs) > 2
-         /\ e.out.k = "err" /\ e.out.e = "FracDigitLimitExceeded"
-F7lit(e) == /\ e.ev = "lit" /\ T!WellFormed(e.bs) /\ ExpDigits(e.bs) > 2
-            /\ e.rt.k = "err" /\ e.mac.k = "cerr"
-
-(* F9 (C06, C18): fpdec-core/src/parser.rs `n_digits > 39` - leading zeros of the *)
-(* fraction are counted as significant digits, so a literal with more than 39     *)
-(* digit places after the leading integer zeros is rejected even when its value   *)
-(* is representable (".0000000000000000000000000000000000000001e22").             *)
-RECURSIVE SkipZ(_,_,_)
-SkipZ(bs, i, j) == IF i < j /\ bs[i] = 48 THEN SkipZ(bs, i+1, j) ELSE i
-CountedDigits(bs) == LET sh == T!Shape(bs) IN (sh.i2 - SkipZ(bs, sh.i1, sh.i2)) + sh.fl
-F9(e) == /\ e.ev = "parse" /\ ~(e.form = "from_str_radix" /\ e.radix # 10)
-         /\ T!WellFormed(e.bs) /\ CountedDigits(e.bs) > 39 /\ T!ParseVal(e.bs)[1] = "ok"
-         /\ e.out.k = "err" /\ e.out.e = "InternalOverflow"
+(* F3 (C04): src/binops/div_rounded.rs impl_div_rounded_int_and_int - integer.div_rounded(integer, n) has *)
+(* no n <= 18 guard (the crate's own unit test asks for 32 digits): for 18 < n the single-rounded         *)
+(* quotient is returned with n fractional digits (zero dividend: 0 with 0 digits) instead of a panic.     *)
+F3(e, md) ==
+  /\ e.ev = "bin" /\ e.op = "div_rounded" /\ e.xt # "dec" /\ e.yt # "dec" /\ e.n > MaxFrac /\ e.y.s # 0
+  /\ e.out.k = "ret"
+  /\ IF e.x.s = 0 THEN e.out.s = 0 /\ e.out.f = 0
+     ELSE /\ e.n <= 38 /\ e.out.f = e.n
+          /\ Num(e.out) = S!RoundQS(BMul(Num(e.x), BPow10(e.n)), Num(e.y), md)
 
 Explains(k, e, md) ==
-  CASE k = "F7" -> F7(e) \/ F7lit(e)
-    [] k = "F9" -> F9(e)
+  CASE k = "F3" -> F3(e, md)
     [] OTHER -> FALSE
 =======================================================================
